@@ -81,4 +81,32 @@ def allRefFieldsFresh (tb : Table) (rf : RecurFacts) : Bool :=
   (tb.all fun f => f.kind != .extStruct || f.treat != .shared) &&
   rf.connectsCopies && rf.usesCopyEdge && rf.rootsCopied && rf.newFresh
 
+
+/-- why a field of `Node` / `Edge` / `Tree` does or does not have to reach a copy by `CopyNode` / `CopyEdge` -/
+inductive Policy
+  | mustCopy     -- printed or answered by some accessor (name, comments, ids, lengths, supports, p-values, depths
+                 -- incl. the depth to the root shown by `Edge.ToStatsString`, tip counts, hash codes, bitsets)
+  | structural   -- the pointer structure itself: rebuilt by `ConnectNodes` / `SetRoot` with copies (facts of `RecurFacts`)
+  | recomputed   -- derived state the copy recomputes itself: `tipid` and the tip index map (`UpdateTipIndex`)
+  deriving DecidableEq, Repr
+
+/-- EVERY field of the three structs, reviewed (round 6).  A field the source has and this list has not
+    makes `allFieldsReviewed` fail, so a new field cannot go unnoticed. -/
+def fieldPolicy : List ((String × String) × Policy) :=
+  [ (("Node", "name"), .mustCopy), (("Node", "comment"), .mustCopy), (("Node", "neigh"), .structural),
+    (("Node", "br"), .structural), (("Node", "depth"), .mustCopy), (("Node", "rootdepth"), .mustCopy),
+    (("Node", "id"), .mustCopy), (("Node", "tipid"), .recomputed),
+    (("Edge", "left"), .structural), (("Edge", "right"), .structural), (("Edge", "length"), .mustCopy),
+    (("Edge", "comment"), .mustCopy), (("Edge", "support"), .mustCopy), (("Edge", "pvalue"), .mustCopy),
+    (("Edge", "bitset"), .mustCopy), (("Edge", "hashcoderight"), .mustCopy), (("Edge", "hashcodeleft"), .mustCopy),
+    (("Edge", "ntaxright"), .mustCopy), (("Edge", "ntaxleft"), .mustCopy), (("Edge", "id"), .mustCopy),
+    (("Tree", "root"), .structural), (("Tree", "tipIndex"), .recomputed) ]
+
+/-- every field of the regenerated table has a reviewed policy, every reviewed field exists, and every
+    `mustCopy` field is copied (by value, deeply, or — flagged elsewhere — shared) -/
+def allFieldsReviewed (tb : Table) : Bool :=
+  (tb.all fun f => (fieldPolicy.lookup (f.owner, f.name)).isSome) &&
+  (fieldPolicy.all fun (k, _) => (tb.treat k.1 k.2).isSome) &&
+  (fieldPolicy.all fun (k, pol) => pol != .mustCopy || tb.copied k.1 k.2)
+
 end Gotree.C15
